@@ -153,8 +153,9 @@ theorem rk_poll_core (N : Nat) (g : RaceOk) (b : Eng Fix) (w : Nat) (hW : WfK N 
         exact h2 _ rfl hz.symm rfl rfl
       · -- `Pending`
         have hclose := rk_close_pending se (by rw [hcnt, hn]; exact hz)
+        have hz' : ¬ N = self.roleCount := fun h => hz h.symm      -- whichever way round the source compares
         unroles
-        simp only [hz, beq_iff_eq, ↓reduceIte]
+        simp only [hz, hz', beq_iff_eq, ↓reduceIte]
         refine ⟨_, rfl, ?_⟩
         rw [hclose]
         exact rk_post_of_rel b se self env .pending hw hn hst hout hcnt hwf hf (by intro es h; cases h)
